@@ -98,6 +98,16 @@ def gen(rng, tier, index):
         scene["t0"] = float(rng.uniform(-1.0, 2.0))
     if kind == "revolute_spring":
         splits = sorted({int(rng.integers(1, max(n // 4, 2))), *splits[1:]})
+    if kind in ("chain", "contact") and rng.random() < 0.3:
+        # released from rest, the same `at_rest` array object handed to every body (and the library's default
+        # initial state for Maxwell elements): a legal way to write a model
+        for b in scene["bodies"]:
+            b["v"] = [0.0, 0.0, 0.0]
+            if b["kind"] == "rigid":
+                b["w"] = [0.0, 0.0, 0.0]
+        scene["share_initial_arrays"] = True
+        if scene.get("gravity") is None:
+            scene["gravity"] = [0.0, 0.0, -9.81]
     nh = kind == "chain" and name != "ScipyIVP"
     plan_nh = add_knife_edge(rng, dict(scene), prob=0.3) if nh else scene  # (drawn last: earlier draws are unchanged)
     if nh and plan_nh.get("nonholonomic"):
@@ -271,6 +281,8 @@ def execute(plan, out, log):
             out["probes"]["rod_present"] += 1
         if getattr(B, "nonholonomic", None):
             out["probes"]["nonholonomic_present"] += 1
+        if B.scene.get("share_initial_arrays") and len({id(b.u0) for b in B.bodies}) < len(B.bodies):
+            out["probes"]["initial_arrays_shared"] += 1
         try:
             for k in plan["splits"]:
                 if k < 1 or k >= N:
